@@ -15,7 +15,12 @@ RULE = (
     "at every compressed output level must extend to a target coordinate in the independent set-semantics "
     "support (inputs = stored coordinate sets incl. explicit zeros, products = intersections, sums = unions, "
     "contraction = projection, literals everywhere). One-directional, as the property states. non-trivial = "
-    "kernel produced AND support set neither empty nor full; distinct by case hash."
+    "kernel produced AND support set neither empty nor full; distinct by case hash. Stored prefixes are read off the "
+    "raw pos/crd arrays level by level, so a coordinate stored with nothing below it counts; the structure built by the "
+    "stand-alone assemble kernel is held to the same oracle. Hollow stream: an all-compressed operand with coordinates "
+    "stored above empty segments, partly contracted into a compressed output. Operator stream: Tensor "
+    "operators (+ - * @, tensor or number operands) on operands generated as raw level structures (explicit zeros, "
+    "stored coordinates with empty segments below), executed natively; the raw result is held to the same oracle."
 )
 ASSUMPTIONS = [
     "support is computed from the monomial expansion of the right-hand side; set semantics distribute, so this "
@@ -44,12 +49,36 @@ def zero_dim_cases(draw, tier):
     return c
 
 
+@st.composite
+def hollow(draw, tier):
+    c = draw(gen.hollow_cases())
+    c["capacity"] = draw(st.sampled_from([2, None]))
+    return c
+
+
+def assemble_phantoms(case, obs, exp):
+    """The structure built by the stand-alone assemble kernel is a compressed output too."""
+    from .. import bridge
+    from ..machine import Trap
+
+    try:
+        _m, structs, _rv = bridge.run_on_machine(obs["case"], obs["fns"]["assemble"])
+    except Trap as t:
+        return [fail(f"assemble-trap:{t.kind}", f"{kprops.ctx_desc(case)}: {t.msg}", **kcheck.trap_info(t))]
+    errs, _stored, arrays, _n = C.decode_struct(structs[case["target"][0]], strict=True, structure_only=True)
+    hard = [e for e in errs if e[0] != "vals-uninit"]
+    if hard or arrays is None:
+        return [fail(f"assemble-invalid:{(hard or errs)[0][0]}", f"{kprops.ctx_desc(case)}: {hard or errs}")]
+    fails, _sz = kprops.phantom_fails(case, {}, exp, levels=arrays)
+    return [dict(f, bucket="assemble-" + f["bucket"]) for f in fails]
+
+
 def check(case, ctx=None):
     labels = set(gen.case_features(case))
     oname = case["target"][0]
     if "s" not in case["formats"][oname]:
         return result([], labels | {"dense_output_skipped"}, False, kcheck.case_id(case), None)
-    obs = kprops.evaluate_at(case, case.get("capacity"))
+    obs = kprops.evaluate_at(case, case.get("capacity"), kinds=("evaluate", "assemble"))
     if obs["status"] != "ok":
         w = obs["why"] if isinstance(obs["why"], str) else obs["why"][0]
         return result([], labels | {f"{obs['status']}:{w}"}, False, kcheck.case_id(case), None)
@@ -60,7 +89,10 @@ def check(case, ctx=None):
         return result([fail(f"invalid:{e[0]}", f"{kprops.ctx_desc(case)}: {obs['errs']}")], labels, False,
                       kcheck.case_id(case), kcheck.sample_of(case))
     exp = kcheck.Expected(case)
-    fails, sizes = kprops.phantom_fails(case, obs["stored"], exp)
+    fails, sizes = kprops.phantom_fails(case, obs["stored"], exp, levels=obs["arrays"])
+    if not fails:
+        fails += assemble_phantoms(case, obs, exp)
+        labels.add("assemble_structure_checked")
     nsup, total = sizes
     nontrivial = 0 < nsup < total
     labels.add("kernel_ok")
@@ -76,7 +108,124 @@ def check(case, ctx=None):
     return result(fails, labels, nontrivial, kcheck.case_id(case), s)
 
 
-STREAMS = {"main": {"strategy": cases, "check": check}, "zero_dim": {"strategy": zero_dim_cases, "check": check}}
+# ------------------------------------------------------------------------------ operators
+# Results of Tensor operators are "compressed outputs" too.  Operands are generated as raw level structures (not via
+# from_dok), so explicit zeros and coordinates stored with an empty segment below them occur; the result is decoded
+# from its raw arrays and its stored prefixes - read off pos/crd level by level - need structural support.
+@st.composite
+def operator_cases(draw, tier):
+    op = draw(st.sampled_from(["*", "*", "*", "+", "-", "@"]))
+
+    def tensor(order, dims=None):
+        dims = dims if dims is not None else tuple(draw(st.sampled_from([1, 2, 2, 3, 3, 4])) for _ in range(order))
+        modes = tuple(draw(st.sampled_from("ssssd")) for _ in range(order))
+        _m, ordering = C.fmt_parts(draw(gen.formats(order)))
+        fmt = C.fmt_text(modes, ordering)
+        stored = draw(gen.stored_tensor(dims, fmt, value_class="exact", density=draw(st.sampled_from([1, 1, 2, 2, 3]))))
+        return {"tensor": {"dims": list(dims), "fmt": fmt, "stored": stored}}
+
+    if op == "@":
+        oa, ob = draw(st.sampled_from([(1, 2), (2, 1), (2, 2), (2, 2)]))
+        a = tensor(oa)
+        inner = a["tensor"]["dims"][-1]
+        b = tensor(ob, tuple([inner] + [draw(st.sampled_from([1, 2, 3])) for _ in range(ob - 1)]))
+        return {"op": op, "left": a, "right": b}
+    order = draw(st.sampled_from([1, 2, 2, 2, 3]))
+    a = tensor(order)
+    if op == "*" and draw(st.integers(0, 2)):  # (+ and - with a number give a dense result)
+        v, ty = draw(st.sampled_from([(2, "int"), (0.5, "float"), (-1.5, "float"), (True, "bool"), (0, "int"), (3, "int")]))
+        sc = {"scalar": v, "type": ty}
+        return {"op": op, "left": a, "right": sc} if draw(st.booleans()) else {"op": op, "left": sc, "right": a}
+    return {"op": op, "left": a, "right": tensor(order, tuple(a["tensor"]["dims"]))}
+
+
+def op_setup(tier, seed, shard):
+    from ..native.pool import Worker
+
+    return {"worker": Worker(module="harness.native.worker2")}
+
+
+def op_teardown(ctx):
+    ctx["worker"].close()
+
+
+def check_operator(call, ctx):
+    from .. import bridge
+
+    def leaf(spec, name, idx):
+        if "tensor" in spec:
+            return ["t", name, idx]
+        v = spec["scalar"]
+        return ["i", int(v)] if spec["type"] in ("int", "bool") else ["f", repr(float(v))]
+
+    L, R = call["left"], call["right"]
+    op = call["op"]
+    if op == "@":
+        la, lb = len(L["tensor"]["dims"]), len(R["tensor"]["dims"])
+        ia = ["k"] if la == 1 else ["i", "k"]
+        ib = ["k"] if lb == 1 else ["k", "j"]
+        tgt = [x for x in ia + ib if x != "k"]
+        tree = ["*", ["t", "a", ia], ["t", "b", ib]]
+        idx_of = {"a": ia, "b": ib}
+    else:
+        T = L if "tensor" in L else R
+        n = len(T["tensor"]["dims"])
+        idx = [f"i{q}" for q in range(n)]
+        tgt = idx
+        tree = [op, leaf(L, "a", idx), leaf(R, "b", idx)]
+        idx_of = {"a": idx, "b": idx}
+    sizes, stored_sets = {}, {}
+    for name, spec in (("a", L), ("b", R)):
+        if "tensor" in spec:
+            t = spec["tensor"]
+            for i, d in zip(idx_of[name], t["dims"]):
+                sizes[i] = d
+            _m, ordering = C.fmt_parts(t["fmt"])
+            stored_sets[name] = set(C.stored_coords(t["stored"]["levels"], t["stored"]["vals"], tuple(t["dims"]), ordering))
+    d = f"{L.get('tensor', L)} {op} {R.get('tensor', R)}"
+    labels = {f"operator:{op}"}
+    rep = ctx["worker"].call({"op": "operators", "calls": [call]}, timeout=300)
+    if "crash" in rep:
+        return result([fail("operator-crashes-process", f"{d}: {rep['crash']}")], labels, False, None, None)
+    if "error" in rep:
+        raise bridge.HarnessError(rep["error"] + rep.get("trace", ""))
+    r = rep["results"][0]
+    if "error" in r:
+        raise bridge.HarnessError(r["error"])
+    if "raised" in r:
+        return result([], labels | {f"operator-raised:{r['raised']}"}, False, None, None)  # refusals are C11's business
+    raw = r["raw"]
+    if raw["problem"] or C.validate_arrays(raw["dims"], raw["ordering"], raw["modes"], raw["levels"], len(raw["vals"])):
+        return result([fail("operator-result-invalid", f"{d}: {raw['problem']}")], labels, False, None, None)
+    if "s" not in raw["modes"]:
+        return result([], labels | {"operator:dense_result"}, False, None, None)
+    pseudo = {"target": ["o", tgt], "expr": tree, "sizes": sizes, "assignment": f"operator {op}",
+              "formats": {"o": C.fmt_text(tuple(raw["modes"]), tuple(raw["ordering"]))}}
+
+    class E:
+        pass
+
+    e = E()
+    e.stored_sets = stored_sets
+    stored = C.stored_coords(raw["levels"], raw["vals"], raw["dims"], raw["ordering"])
+    fails, (nsup, total) = kprops.phantom_fails(pseudo, stored, e, levels=raw["levels"])
+    fails = [dict(f, bucket="operator-" + f["bucket"]) for f in fails]
+    empty_fiber = False
+    for spec in (L, R):
+        if "tensor" in spec:
+            lv = [x for x in spec["tensor"]["stored"]["levels"] if x is not None]
+            for up, low in zip(lv, lv[1:]):
+                if len(up[1]) and any(low[0][q] == low[0][q + 1] for q in range(len(up[1]))) and len(low[0]) == len(up[1]) + 1:
+                    empty_fiber = True
+    if empty_fiber:
+        labels.add("operand_with_stored_but_empty_fiber")
+    labels.add("operator_ok")
+    return result(fails, labels, 0 < nsup < total, None, {"call": d[:300], "support": f"{nsup}/{total}", "stored": len(stored)})
+
+
+STREAMS = {"main": {"strategy": cases, "check": check}, "zero_dim": {"strategy": zero_dim_cases, "check": check},
+           "hollow": {"strategy": hollow, "check": check},
+           "operators": {"strategy": operator_cases, "check": check_operator, "setup": op_setup, "teardown": op_teardown}}
 
 
 def shrink_case(case, bucket):
@@ -85,6 +234,12 @@ def shrink_case(case, bucket):
 
 
 def replay(payload):
+    if "op" in payload["case"]:
+        ctx = op_setup("quick", 0, 0)
+        try:
+            return check_operator(payload["case"], ctx)["fails"]
+        finally:
+            op_teardown(ctx)
     return check(payload["case"])["fails"]
 
 
@@ -92,6 +247,8 @@ def run(chk):
     n = 2400 if chk.tier == "quick" else 60000
     chk.absorb(run_stream(__name__, "main", chk.tier, chk.seed, n), shrink=shrink_case)
     chk.absorb(run_stream(__name__, "zero_dim", chk.tier, chk.seed, n // 4), shrink=shrink_case)
+    chk.absorb(run_stream(__name__, "hollow", chk.tier, chk.seed, n // 4), shrink=shrink_case)
+    chk.absorb(run_stream(__name__, "operators", chk.tier, chk.seed, 480 if chk.tier == "quick" else 12000), kind="operator-call")
 
 
 def health(cov):
